@@ -528,16 +528,73 @@ pub fn gen(prop: &str, seed: u64, index: u64, _tier: Tier) -> Case {
             project = p;
         }
         "C08" => {
-            project = gen_project(&mut prng, &hist_opts(false));
+            let mut p8 = gen_project(&mut prng, &hist_opts(false));
+            let a0 = analyze(&p8);
+            if prng.chance(1, 8) && a0.n() > 0 {
+                // a build that fails must fail whatever is lying around, too (only verdicts compared)
+                let s = a0.sources[prng.below(a0.n())].path.clone();
+                let k = gen::inject_error(&mut prng, &mut p8, &s);
+                params.insert("error".into(), k);
+            }
+            project = p8;
             let a = analyze(&project);
             let (inputs, recursive) = gen::gen_inputs(&mut prng, &a, false);
             let tn = !prng.chance(1, 6);
             let final_seed = prng.next();
             let final_policy = gen::pick_policy(&mut prng);
             let final_k = *prng.pick(&gen::KS);
-            let shape = rng.below(10);
+            let shape = rng.below(13);
             params.insert("dirty_seed".into(), format!("{}", rng.next()));
             match shape {
+                10..=12 => {
+                    // an earlier version of one or two sources (edited text, or a directive that fails)
+                    // is built, interrupted or built with --needed; then the sources get their final
+                    // text back and the final build must not care what the earlier version left
+                    let mut restore: Vec<Op> = vec![];
+                    let n_edits = rng.range(1, 2);
+                    for _ in 0..n_edits {
+                        let op = if shape == 11 {
+                            error_edit_op(&mut rng, &project, &a)
+                        } else {
+                            edit_source(&mut rng, &project, &a)
+                        };
+                        if let Some(op) = op {
+                            match &op {
+                                Op::Write { path, .. } | Op::Remove { path } => {
+                                    if restore.iter().any(|r| matches!(r, Op::Write { path: q, .. } if q == path)) {
+                                        continue;
+                                    }
+                                    if let Some(orig) = project.file(path) {
+                                        restore.push(Op::Write {
+                                            path: path.clone(),
+                                            data: orig.clone(),
+                                        });
+                                    } else {
+                                        continue;
+                                    }
+                                }
+                                _ => continue,
+                            }
+                            ops.push(op);
+                        }
+                    }
+                    let m = if rng.chance(1, 3) { ModeS::Needed } else { ModeS::Build };
+                    ops.push(run_op(&mut rng, m, &inputs, recursive, tn, "earlier-version"));
+                    if shape == 12 {
+                        ops.push(Op::CrashImage {
+                            step: rng.below(40),
+                            torn: rng.next(),
+                            writing: rng.chance(2, 3),
+                        });
+                    }
+                    ops.extend(restore);
+                    variant = match shape {
+                        10 => "edit-build",
+                        11 => "error-fix-build",
+                        _ => "edit-crash-build",
+                    }
+                    .into();
+                }
                 0..=2 => variant = "dirty-build".into(),
                 3 => {
                     ops.push(run_op(&mut rng, ModeS::Build, &inputs, recursive, tn, "build-1"));
